@@ -10,7 +10,8 @@ product
    x  the B sequence: six small workloads, each OPENED AFTER A's command, on their own stores -- FLOAT / DOUBLE files in both byte
       orders written and read with all four caller types and with the values on which code paths differ (+-Inf, NaN, -0.0,
       subnormals, out-of-range), 16-bit PCM through float (normalisation, clipping), u-law, IMA ADPCM;
-   once with A still open while B runs and once with A closed before B is opened.
+   once with A still open while B runs and once with A closed before B is opened (the argument shapes in the other order: a switch
+   is left ON in one run and OFF in the other).
 Predicate: every line of B's transcript (return values, data, error numbers, bytes of the closed files) equals the line of the run
 that never had a handle A.  A difference is a VIOLATION whose replay is a C19 replay (`c19-compare`, solo = the B sequence alone).
 Model: lean/SfModel/CapsWorld.lean (the capability static with the rule of the code and the caching rule), theorems
@@ -78,11 +79,14 @@ A_FORMATS = [("float", 0x00010006, "f32", [f32(0.5), f32(-0.25)]), ("double", 0x
              ("pcm16", 0x00010002, "s16", [1, 2]), ("ulaw", 0x00030001, "s16", [1, 2])]
 
 
-def a_prefix(fmt, ty, vals, cid):
+def a_prefix(fmt, ty, vals, cid, rev=False):
+    """the three argument shapes in one of two orders: a switch command ends ON in one order and OFF in the other (both differ from
+    one of the two possible defaults)"""
     d = {"s16": 4, "f32": 8, "f64": 16}[ty]
-    return ["open h8 s7 w fmt=%08x ch=1 sr=8000" % fmt,
-            "cmd h8 %x 1 null" % cid, "cmd h8 %x 0 null" % cid, "cmd h8 %x 64 zero" % cid,
-            "w h8 %s i %d %s" % (ty, len(vals), "".join("%0*x" % (d, v) for v in vals))]
+    shapes = ["cmd h8 %x 1 null" % cid, "cmd h8 %x 0 null" % cid, "cmd h8 %x 64 zero" % cid]
+    if rev:
+        shapes = [shapes[2], shapes[0], shapes[1]]
+    return ["open h8 s7 w fmt=%08x ch=1 sr=8000" % fmt] + shapes + ["w h8 %s i %d %s" % (ty, len(vals), "".join("%0*x" % (d, v) for v in vals))]
 
 
 def run(ctx, env):
@@ -93,8 +97,8 @@ def run(ctx, env):
     meta = {}
     for (cname, cid) in cmds:
         for (aname, fmt, ty, vals) in A_FORMATS:
-            pre = a_prefix(fmt, ty, vals, cid)
             for closed in (False, True):
+                pre = a_prefix(fmt, ty, vals, cid, rev=closed)
                 n = "cr-%s-%s-%s" % (cname, aname, "closed" if closed else "open")
                 full = pre + (["close h8"] if closed else []) + B + ([] if closed else ["close h8"])
                 owners = [7] * (len(pre) + (1 if closed else 0)) + [0] * len(B) + ([] if closed else [7])
